@@ -19,7 +19,15 @@ func init() {
 		for _, m := range minLen {
 			m := m
 			c.Add(&Job{Label: "MinLength/" + m.name, Pkg: rootPkg, Func: "VerifC16MinLength", MustCover: []string{"applies", "short modulus", "long enough"},
-				Tune: func(cf *Config) { cf.StrParams["c16.lint"] = m.name; cf.Bounds["param:c16.min"] = m.min }})
+				Tune: func(cf *Config) {
+					cf.StrParams["c16.lint"] = m.name
+					cf.Bounds["param:c16.min"] = m.min
+					// exact bit-length thresholds around the minimum, so that code computing with the bit length
+					// (rounding to bytes, off-by-one comparisons) is decided and not just the plain comparison
+					for k := m.min - 9; k <= m.min+9; k++ {
+						cf.BitLenExtra = append(cf.BitLenExtra, k)
+					}
+				}})
 		}
 		windows := [][2]int{{1, 17}, {1016, 1033}, {2040, 2057}, {3064, 3081}, {4088, 4105}}
 		if c.Quick() {
